@@ -2,27 +2,61 @@
 
 History checker: after EVERY call on the real ATP_Store the harness reads balances/debt/statistics
 and checks the per-step obligations with net = atp+gtp+nadh-debt. icontract invariants run on every
-public method of a harness-side subclass; the store's lock is wrapped in a DetectingLock.
+public method of a harness-side subclass; every lock of the store is wrapped in a DetectingLock.
+
+Sessions run on TWO differently configured stores used alternately (each is the other's transfer peer). Besides the
+ledger operations a session interleaves: read-only/reporting calls (must move nothing), public-attribute
+reconfiguration (silent, max_debt, debt_interest, capacities), construction of unrelated third instances,
+verbose (silent=False) stores with stdout sent to a sink, state-change callbacks that raise (the user's exception
+may propagate; the ledger obligations are judged on the state afterwards and the lock must be free), deterministic
+"ticks" of the background regeneration thread (regeneration_rate > 0, the module-level `time` is replaced by a
+shim whose sleep() parks the thread until the harness releases it) and a quiet twin pair (silent, no callback, no
+reads, not monitored) that receives the same operations and must report the same results.
 """
+import collections
+import contextlib
 import sys
+import threading
 
 from rv import core
 from rv.locks import DetectingLock, WouldHang, wrap_all_locks
 
 PID = "C04"
 LEVEL = "exploration"
-TECHNIQUE = "runtime monitoring: per-step conservation/charging history checker + icontract class invariants on the real ATP_Store, over swept and random operation histories"
-RULE = ("configs from budget,gtp,nadh in {0,1,2,5,10,100} x max_debt {0,1,5,50} x interest {0,.1,1}; histories of <= 25 ops over "
-        "{consume(all currencies, debt, priority), regenerate, transfer_to(peer|self), convert, dormancy, interest, reset} with boundary amounts; "
-        "first cases = systematic depth-<=3 sweep on a small grid; non-trivial = history took >= 2 different consume branches "
+TECHNIQUE = ("runtime monitoring: per-step conservation/charging history checker + icontract class invariants on the real ATP_Store, "
+             "over swept and random operation histories on two alternately used stores, with a quiet differential twin")
+RULE = ("configs from budget,gtp,nadh in {0,1,2,5,10,100,1e9,2^53+1,2^64+3} x max_debt {0,1,5,50,2.5,1e9,2^64} x interest "
+        "{0,.1,1,1e-9,.5,2.5,.1+.2,1,2} x silent {True,False} x regeneration_rate {0,.5,1,2.7,1e9} for TWO stores; histories of <= 25 ops "
+        "over {consume(all currencies, debt, priority, call style, odd operation names), regenerate, transfer_to(other|self), convert, "
+        "dormancy, interest, reset, background-regeneration tick, reporting reads, attribute reconfiguration, spawning a third instance} "
+        "on either store with boundary amounts; raising state-change callbacks; first cases = systematic depth-<=3 sweep on a small grid "
+        "(alternately verbose); a few sessions of > 20 000 ops on one pair; non-trivial = history took >= 2 different consume branches "
         "(direct/top-up/debt/gated/refused, recognised from the observed deltas); distinct = (config class, branch sequence)")
-ASSUMPTIONS = ["non-negative integer amounts", "user state-change callbacks do not raise",
-               "NADH->ATP top-up inside a failed ATP spend is net-worth-neutral and therefore allowed"]
+ASSUMPTIONS = ["non-negative integer amounts; outside the dedicated 'astronomic' sessions (integers beyond 1e308 / 4300 digits, whose OverflowError / ValueError "
+               "are registered known findings) all quantities stay inside the float range (the state ratio is a float division)",
+               "a user state-change callback may raise: its exception propagates, the ledger obligations are judged on the state left behind",
+               "user callbacks do not call back into locking methods of the same store (the lock is not re-entrant)",
+               "NADH->ATP top-up inside a failed ATP spend is net-worth-neutral and therefore allowed",
+               "when max_debt is re-assigned during a session the debt limit judged is the largest value it had in that session"]
 
 
 class InvariantBroken(Exception):
     pass
 
+
+class UserCallbackError(Exception):
+    """Raised by the harness's own state-change callback (class 'user hook raises')."""
+
+
+class _Sink:
+    def write(self, s):
+        return len(s)
+
+    def flush(self):
+        pass
+
+
+SINK = _Sink()
 
 _INV = {"n": 0}
 
@@ -54,9 +88,96 @@ def monitored_class():
     return _Monitored
 
 
+# ---------------------------------------------------------------------------------------------------------------------
+# background regeneration made deterministic: the module-level `time` of operon_ai.state.metabolism is replaced by a shim
+# whose sleep() parks the calling (regeneration) thread until the harness releases it for exactly one round.
+class SleepShim:
+    def __init__(self, real):
+        self.real = real
+        self.cv = threading.Condition()
+        self.state = {}          # Thread -> "parked" | "go" | "running"
+        self.final = set()       # threads that must never park again (session over)
+
+    def __getattr__(self, k):
+        return getattr(self.real, k)
+
+    def sleep(self, d):
+        me = threading.current_thread()      # keyed by the Thread object (idents are reused)
+        if me is threading.main_thread():
+            return self.real.sleep(d)
+        with self.cv:
+            if me not in self.final:
+                self.state[me] = "parked"
+                self.cv.notify_all()
+                while self.state.get(me) == "parked" and me not in self.final:
+                    self.cv.wait(1.0)
+                self.state[me] = "running"
+                self.cv.notify_all()
+                return
+        self.real.sleep(0.0005)
+
+    def wait_parked(self, thread, timeout):
+        """True when `thread` is parked in sleep(); False when it died or did not arrive in time."""
+        end = self.real.monotonic() + timeout
+        with self.cv:
+            while self.state.get(thread) != "parked":
+                if not thread.is_alive() or self.real.monotonic() > end:
+                    return False
+                self.cv.wait(0.05)
+        return True
+
+    def tick(self, thread, timeout=120.0):
+        """Release `thread` for one loop round and wait until it is parked again. Returns False if it died / got lost."""
+        if not self.wait_parked(thread, timeout):
+            return False
+        with self.cv:
+            self.state[thread] = "go"
+            self.cv.notify_all()
+        return self.wait_parked(thread, timeout)
+
+    def finish(self, thread):
+        with self.cv:
+            self.final.add(thread)
+            self.cv.notify_all()
+
+    def forget(self, thread):
+        with self.cv:
+            if not thread.is_alive():
+                self.final.discard(thread)
+                self.state.pop(thread, None)
+
+
+_SHIM = {"obj": None, "unavailable": False, "thread_errors": []}
+
+
+def install_shim():
+    if _SHIM["obj"] is None:
+        import operon_ai.state.metabolism as mm
+        real = getattr(mm, "time", None)
+        if real is None or not hasattr(real, "sleep"):
+            _SHIM["unavailable"] = True
+            return None
+        _SHIM["obj"] = SleepShim(real)
+        mm.time = _SHIM["obj"]
+        prev = threading.excepthook
+
+        def hook(args):
+            _SHIM["thread_errors"].append((args.thread.ident if args.thread else None, args.exc_type.__name__, repr(args.exc_value)))
+        threading.excepthook = hook
+        _SHIM["prev_hook"] = prev
+    return _SHIM["obj"]
+
+
+# ---------------------------------------------------------------------------------------------------------------------
 GRID = [0, 1, 2, 5, 10, 100]
+BIG = [10 ** 9, 2 ** 53 + 1, 2 ** 64 + 3]
 DEBTS = [0, 1, 5, 50]
+ODD_DEBTS = [2.5, 0.5, 10 ** 9, 2 ** 64]
 INTEREST = [0.0, 0.1, 1.0]
+ODD_INTEREST = [1e-9, 0.5, 2.5, 0.1 + 0.2, 0.999999, 1, 2]
+RATES = [0.5, 1, 2.7, 3, 10 ** 9]
+PRIORITIES = [0, 0, 5, 10, 10, 4, 6, 9, 11, -1, 10 ** 9]
+OPNAMES = ["", "x" * 300, "{}", "{0!r:>{1}}", "%s %d %(a)s", "näme ✓\n\t\u0000", "\U0001F480 apoptosis", "unknown"]
 
 # systematic sweep: small configs x all op sequences of depth <= 3 over a small op alphabet
 SWEEP_CONFIGS = [(b, g, n, d) for b in (0, 2, 5) for g in (0, 2) for n in (0, 3) for d in (0, 5)]
@@ -67,25 +188,43 @@ def sweep_ops():
     for cur in ("ATP", "GTP", "NADH"):
         for cost in (0, 1, 3, 6, 20):
             for debt in (False, True):
-                ops.append(("consume", cost, cur, debt, 10))
-    ops += [("regenerate", 2, "ATP"), ("regenerate", 50, "ATP"), ("regenerate", 2, "NADH"), ("convert", 2),
-            ("transfer", 2, "ATP", "peer"), ("transfer", 1, "NADH", "self"), ("interest",), ("dormant",), ("wake",)]
+                ops.append({"k": "consume", "who": 0, "amt": cost, "cur": cur, "debt": debt, "prio": 10})
+    ops += [{"k": "regenerate", "who": 0, "amt": 2, "cur": "ATP"}, {"k": "regenerate", "who": 0, "amt": 50, "cur": "ATP"},
+            {"k": "regenerate", "who": 0, "amt": 2, "cur": "NADH"}, {"k": "convert", "who": 0, "amt": 2},
+            {"k": "transfer", "who": 0, "amt": 2, "cur": "ATP", "to": "other"}, {"k": "transfer", "who": 0, "amt": 1, "cur": "NADH", "to": "self"},
+            {"k": "interest", "who": 0}, {"k": "dormant", "who": 0}, {"k": "wake", "who": 0}]
     return ops
 
 
 SWEEP_OPS = sweep_ops()
 # depth-2 complete, depth-3 sampled by stride (kept deterministic)
 N_SWEEP = len(SWEEP_CONFIGS) * (len(SWEEP_OPS) ** 2)
+LONG_STEPS = 24000
+
+
+def n_long(tier):
+    return 2 if tier == "quick" else 12
 
 
 def plan(tier):
     extra = 18000 if tier == "quick" else 400000
-    return {"cases": N_SWEEP // 8 + extra if tier == "quick" else N_SWEEP + extra,
+    sweep = N_SWEEP // 8 if tier == "quick" else N_SWEEP
+    return {"cases": sweep + n_long(tier) + extra,
             "shards": 8 if tier == "quick" else 14, "min_nontrivial": 500,
             "timeout": 600 if tier == "quick" else 2400,
             "require": {"steps": 100000, "branch:direct": 5000, "branch:topup": 500, "branch:debt": 2000,
                         "branch:refused": 5000, "branch:gated": 500, "invariant_evaluations": 100000,
-                        "transfers_ok": 500, "lock_acquisitions": 100000}}
+                        "transfers_ok": 500, "lock_acquisitions": 100000,
+                        # round 3
+                        "verbose_steps": 20000, "verbose_debt_repaid_in_full": 100, "twin_sessions": 500, "twin_steps": 5000,
+                        "reads": 3000, "reconfigurations": 1000, "spawned_instances": 500,
+                        "callback_raised": 200, "callback_observations": 5000, "steps_on_second_store": 10000,
+                        "big_value_sessions": 200, "odd_config_sessions": 400, "default_constructor_sessions": 50,
+                        "long_sessions": 2, "long_session_steps": 20000, "long_session_spends_ok": 3000,
+                        "continuity_checks": 80000, "clock_jumps": 1000, "astronomic_sessions": 50}}
+
+
+CORE = ("atp", "gtp", "nadh", "debt")
 
 
 def snapshot(s):
@@ -100,9 +239,83 @@ def net(x):
     return x["atp"] + x["gtp"] + x["nadh"] - x["debt"]
 
 
-def run_case(ctx, n):
-    from operon_ai.state.metabolism import EnergyType
+def caps(store):
+    return {"atp": store.max_atp, "gtp": store.max_gtp, "nadh": store.max_nadh}
 
+
+def build(cls, cfg, cb, silent, style):
+    """Construct through one of three call styles (all-defaults where the config equals the defaults)."""
+    b, g, n, d, i, rate = cfg["budget"], cfg["gtp"], cfg["nadh"], cfg["max_debt"], cfg["interest"], cfg["rate"]
+    if style == "defaults" and (g, n, rate, d, i) == (0, 0, 0.0, 0, 0.1) and cb is None and silent is False:
+        return cls(b)
+    if style == "positional":
+        return cls(b, g, n, rate, d, i, cb, silent)
+    return cls(b, gtp_budget=g, nadh_reserve=n, regeneration_rate=rate, max_debt=d, debt_interest=i, on_state_change=cb, silent=silent)
+
+
+def apply_op(ET, stores, op, i):
+    """Perform `op` on stores[op['who']] (the other one is the transfer peer). Same code for the judged pair and the twin."""
+    s = stores[op["who"]]
+    o = stores[1 - op["who"]]
+    k = op["k"]
+    style = op.get("style", "kw")
+    if k == "consume":
+        name = op.get("name", "op%d" % i)
+        if style == "defaults" and op["cur"] == "ATP" and not op["debt"] and op["prio"] == 0:
+            return s.consume(op["amt"])
+        if style == "positional":
+            return s.consume(op["amt"], name, ET[op["cur"]], op["debt"], op["prio"])
+        return s.consume(op["amt"], name, ET[op["cur"]], allow_debt=op["debt"], priority=op["prio"])
+    if k == "regenerate":
+        if style == "defaults" and op["cur"] == "ATP":
+            return s.regenerate(op["amt"])
+        return s.regenerate(op["amt"], ET[op["cur"]])
+    if k == "transfer":
+        dst = s if op["to"] == "self" else o
+        if style == "defaults" and op["cur"] == "ATP":
+            return s.transfer_to(dst, op["amt"])
+        if style == "positional":
+            return s.transfer_to(dst, op["amt"], ET[op["cur"]])
+        return s.transfer_to(other=dst, amount=op["amt"], energy_type=ET[op["cur"]])
+    if k == "convert":
+        return s.convert_nadh_to_atp(op["amt"])
+    if k == "dormant":
+        return s.enter_dormancy()
+    if k == "wake":
+        return s.exit_dormancy()
+    if k == "interest":
+        return s.apply_debt_interest()
+    if k == "reset":
+        return s.reset()
+    if k == "set":
+        setattr(s, op["attr"], op["value"])
+        return None
+    raise AssertionError(k)
+
+
+def do_read(ET, s, op):
+    """Reporting / read-only API calls; returns a small summary that is cross-checked against the snapshot."""
+    kind = op["kind"]
+    if kind == "report":
+        r = s.get_report()
+        return {"atp": r.atp, "gtp": r.gtp, "nadh": r.nadh, "debt": r.debt}
+    if kind == "stats":
+        st = s.get_statistics()
+        return {"atp": st["atp"], "gtp": st["gtp"], "nadh": st["nadh"], "debt": st["debt"]}
+    if kind == "transactions":
+        t = s.get_transactions(op["limit"]) if op["limit"] is not None else s.get_transactions()
+        return {"len": len(t)}
+    if kind == "repr":
+        return {"len": len(repr(s)) + len(str(s))}
+    if kind == "balance-default":
+        return {"atp": s.get_balance()}
+    if kind == "getters":
+        return {"atp": s.get_balance(ET["ATP"]), "gtp": s.get_balance(ET["GTP"]), "nadh": s.get_balance(ET["NADH"]),
+                "debt": s.get_debt(), "state": s.get_state().value}
+    raise AssertionError(kind)
+
+
+def run_case(ctx, n):
     sweep_n = N_SWEEP // 8 if ctx.tier == "quick" else N_SWEEP
     if n < sweep_n:
         idx = n * 8 + (ctx.seed % 8) if ctx.tier == "quick" else n
@@ -110,129 +323,488 @@ def run_case(ctx, n):
         ci, rest = divmod(idx, len(SWEEP_OPS) ** 2)
         a, b = divmod(rest, len(SWEEP_OPS))
         budget, gtp, nadh, max_debt = SWEEP_CONFIGS[ci]
-        interest = 0.1
         rng = ctx.rng("sweep", n)
         ops = [SWEEP_OPS[a], SWEEP_OPS[b], SWEEP_OPS[rng.randrange(len(SWEEP_OPS))]]
-        peer_cfg = (5, 0, 0, 0)
+        verbose = bool(n & 1)
+        spec = {"cfgs": [{"budget": budget, "gtp": gtp, "nadh": nadh, "max_debt": max_debt, "interest": 0.1, "rate": 0.0},
+                         {"budget": 5, "gtp": 0, "nadh": 0, "max_debt": 0, "interest": 0.1, "rate": 0.0}],
+                "silent": [not verbose, not verbose], "ops": ops, "twin": bool(n & 2), "raise_p": 0.0, "cb": [True, False],
+                "styles": ["kw", "kw"], "monitored": True, "light": False}
+        return session(ctx, n, rng, spec)
+    if n < sweep_n + n_long(ctx.tier):
+        rng = ctx.rng("long", n)
+        j = n - sweep_n
+        spec = {"cfgs": [{"budget": rng.choice([40, 60, 100]), "gtp": rng.choice([0, 10]), "nadh": rng.choice([0, 15]),
+                          "max_debt": rng.choice([0, 20]) if j else 20, "interest": rng.choice([0.1, 0.5]), "rate": 0.0},
+                         {"budget": rng.choice([20, 50]), "gtp": 5, "nadh": 5, "max_debt": 10, "interest": 0.1, "rate": 0.0}],
+                "silent": [bool(j & 1), True], "ops": None, "twin": False, "raise_p": 0.0, "cb": [True, False],
+                "styles": ["kw", "positional"], "monitored": False, "light": True, "nsteps": LONG_STEPS, "clock": bool(j & 2)}
+        return session(ctx, n, rng, spec)
+
+    if ctx.rng("astro?", n).random() < 0.012:
+        return astronomic_case(ctx, n)
+    rng = ctx.rng(n)
+    big = rng.random() < 0.06
+    odd = rng.random() < 0.12
+    cfgs = []
+    for who in (0, 1):
+        grid = GRID + (BIG if big else [])
+        c = {"budget": rng.choice(grid), "gtp": rng.choice(grid + [0, 0]), "nadh": rng.choice(grid + [0, 0]),
+             "max_debt": rng.choice(DEBTS + (ODD_DEBTS if odd or big else [])) if who == 0 else rng.choice([0, 5] + ([2 ** 64] if big else [])),
+             "interest": rng.choice(INTEREST + (ODD_INTEREST if odd else [])) if who == 0 else 0.1, "rate": 0.0}
+        cfgs.append(c)
+    if rng.random() < 0.04:      # everything at the constructor defaults (incl. silent=False)
+        cfgs[0].update(gtp=0, nadh=0, max_debt=0, interest=0.1)
+        dflt = True
     else:
-        rng = ctx.rng(n)
-        budget, gtp, nadh = rng.choice(GRID), rng.choice(GRID + [0, 0]), rng.choice(GRID + [0, 0])
-        max_debt, interest = rng.choice(DEBTS), rng.choice(INTEREST)
-        peer_cfg = (rng.choice(GRID), rng.choice([0, 5]), rng.choice([0, 5]), rng.choice([0, 5]))
-        ops = None
+        dflt = False
+    ticks = rng.random() < 0.03
+    if ticks:
+        for who in (0, 1):
+            if who == 0 or rng.random() < 0.5:
+                cfgs[who]["rate"] = rng.choice(RATES)
+    raise_p = 0.0 if ticks else (rng.choice([0.3, 0.6, 1.0]) if rng.random() < 0.15 else 0.0)
+    spec = {"cfgs": cfgs, "silent": [False if dflt else rng.random() < 0.6, rng.random() < 0.6], "ops": None,
+            "twin": (not ticks) and raise_p == 0.0 and rng.random() < 0.35, "raise_p": raise_p,
+            "cb": [not dflt and rng.random() < 0.85, rng.random() < 0.5], "shared_cb": rng.random() < 0.3,
+            "styles": ["defaults" if dflt else rng.choice(["kw", "positional"]), rng.choice(["kw", "positional"])],
+            "monitored": True, "light": False, "big": big, "odd": odd, "dflt": dflt, "clock": (not ticks) and rng.random() < 0.2}
+    return session(ctx, n, rng, spec)
 
-    M = monitored_class()
-    states = []
-    store = M(budget, gtp_budget=gtp, nadh_reserve=nadh, max_debt=max_debt, debt_interest=interest,
-              on_state_change=lambda st: states.append(st.value), silent=True)
-    peer = M(peer_cfg[0], gtp_budget=peer_cfg[1], nadh_reserve=peer_cfg[2], max_debt=peer_cfg[3], silent=True)
-    wrapped = wrap_all_locks(store, DetectingLock, "ATP_Store") + wrap_all_locks(peer, DetectingLock, "peer")
-    cfg = {"budget": budget, "gtp": gtp, "nadh": nadh, "max_debt": max_debt, "interest": interest, "peer": peer_cfg}
+
+JUMPS = [0.001, 0.5, 1.0, 59.999, 3600, 86399.5, 86400, 86401, 90000, 30 * 86400, 400 * 86400]
+
+HUGE = [10 ** 309, 2 ** 1100, 10 ** 400, 10 ** 5000]          # non-negative integers beyond the float range / beyond the int->str digit limit
+
+
+def astronomic_case(ctx, n):
+    """The quantifier says 'non-negative integer arguments' without an upper bound. Integers beyond the float range make the
+    store's float arithmetic (state ratio, interest, report) raise OverflowError, and integers beyond CPython's int->str digit limit
+    make its progress messages raise ValueError. Both are registered known findings (mechanism keys `float-range-overflow`,
+    `int-str-digit-limit`); any OTHER exception, and any ledger violation on a session that did not raise, is judged as usual."""
+    from operon_ai.state.metabolism import ATP_Store, EnergyType as ET
+    rng = ctx.rng("astro", n)
+    ctx.count("astronomic_sessions")
+    pool = HUGE + [rng.choice(HUGE) + rng.randrange(3), 5, 100, 0, 1]
+    verbose = rng.random() < 0.4
+    cfgs = [{"budget": rng.choice(pool), "gtp": rng.choice([0, 0, 5] + HUGE), "nadh": rng.choice([0, 0, 3] + HUGE), "max_debt": rng.choice([0, 5] + HUGE),
+             "interest": rng.choice([0.0, 0.1, 1.0]), "rate": 0.0},
+            {"budget": rng.choice([5, 100] + HUGE), "gtp": 0, "nadh": 0, "max_debt": rng.choice([0, 5]), "interest": 0.1, "rate": 0.0}]
+    trace = []
+    seen_amounts = [0]
+
+    def classify(where, exc):
+        w = {"configs": [{k: (v if not isinstance(v, int) or v < 10 ** 30 else "~10^%d" % (len(str(v)) - 1 if v < 10 ** 4000 else 5000)) for k, v in c.items()} for c in cfgs],
+             "silent": not verbose, "trace": trace[-8:], "exception": "%s: %s" % (type(exc).__name__, str(exc)[:120])}
+        biggest = max([v for c in cfgs for v in c.values() if isinstance(v, int)] + seen_amounts)
+        if isinstance(exc, OverflowError) and biggest >= 10 ** 308:
+            ctx.violation("float-range-overflow", "%s with an amount/capacity beyond the float range raised OverflowError" % where, w)
+        elif isinstance(exc, ValueError) and "Exceeds the limit" in str(exc) and biggest >= 10 ** 4300:
+            ctx.violation("int-str-digit-limit", "%s with an integer of more than 4300 digits raised ValueError (int->str digit limit)" % where, w)
+        else:
+            ctx.violation("raises:%s:%s" % (where, type(exc).__name__), "%s raised %r with astronomic amounts" % (where, exc), w)
+
+    old_out = sys.stdout
+    sys.stdout = SINK
+    try:
+        try:
+            stores = [build(ATP_Store, cfgs[0], None, not verbose, rng.choice(["kw", "positional"])), build(ATP_Store, cfgs[1], None, True, "kw")]
+        except Exception as e:  # noqa
+            return classify("constructor", e)
+        for i in range(rng.randint(3, 10)):
+            k = rng.choice(["consume", "consume", "consume", "regenerate", "transfer", "convert", "interest", "read", "dormant", "wake"])
+            who = 0 if rng.random() < 0.75 else 1
+            amt = rng.choice(pool)
+            cur = rng.choice(["ATP", "ATP", "GTP", "NADH"])
+            seen_amounts.append(amt)
+            op = {"k": k, "who": who, "amt": amt, "cur": cur, "debt": rng.random() < 0.6, "prio": rng.choice([0, 10]), "to": rng.choice(["other", "other", "self"]), "style": "kw"}
+            trace.append("%s(%s%s%s) on store %d" % (k, "~10^%d" % (len(str(amt)) - 1) if amt > 10 ** 30 and amt < 10 ** 4000 else ("~10^5000" if amt >= 10 ** 4000 else amt),
+                                                     "," + cur if k in ("consume", "regenerate", "transfer") else "", ",allow_debt" if k == "consume" and op["debt"] else "", who))
+            try:
+                before = [snapshot(x) for x in stores]
+                if k == "read":
+                    do_read(ET, stores[who], {"kind": rng.choice(["report", "stats", "repr", "getters"])})
+                    continue
+                res = apply_op(ET, stores, op, i)
+                after = [snapshot(x) for x in stores]
+            except Exception as e:  # noqa
+                return classify(k, e)
+            ctx.count("astronomic_steps")
+            for j, a in enumerate(after):
+                if min(a["atp"], a["gtp"], a["nadh"], a["debt"]) < 0:
+                    ctx.violation("negative-balance", "astronomic session: %s left a negative quantity on store %d" % (k, j), {"trace": trace[-8:]})
+            if k == "consume":
+                d = net(before[who]) - net(after[who])
+                if res is True and d != amt:
+                    ctx.violation("charge-mismatch", "astronomic session: successful consume changed net worth by %s the cost" % ("less than" if d < amt else "more than"), {"trace": trace[-8:]})
+                if res is False and (d != 0):
+                    ctx.violation("failure-not-free", "astronomic session: refused consume changed net worth", {"trace": trace[-8:]})
+            if k in ("regenerate", "transfer") and net(after[0]) + net(after[1]) > net(before[0]) + net(before[1]) + (amt if k == "regenerate" else 0):
+                ctx.violation("%s-creates-energy" % k, "astronomic session: %s created energy" % k, {"trace": trace[-8:]})
+        ctx.nontrivial(("astro", tuple(t.split(" on ")[0] for t in trace)))
+    finally:
+        sys.stdout = old_out
+
+
+def session(ctx, n, rng, spec):
+    """Runs the session; a share of them under a virtual clock that the workload moves by sub-second .. > 1 year jumps."""
+    if not spec.get("clock"):
+        return _session(ctx, n, rng, spec, None)
+    import operon_ai.state.metabolism as mm
+    from rv.vclock import VClock, patched
+    with patched(VClock(), mm) as clock:
+        return _session(ctx, n, rng, spec, clock)
+
+
+def _session(ctx, n, rng, spec, clock):
+    from operon_ai.state.metabolism import ATP_Store, EnergyType
     ET = {"ATP": EnergyType.ATP, "GTP": EnergyType.GTP, "NADH": EnergyType.NADH}
+    cfgs = spec["cfgs"]
+    light = spec["light"]
+    cls = monitored_class() if spec["monitored"] else ATP_Store
+    raise_p = spec["raise_p"]
+    want_ticks = any(c["rate"] > 0 for c in cfgs)
+    shim = install_shim() if want_ticks else None
+    if want_ticks and (shim is None or _SHIM["unavailable"]):
+        ctx.count("tick_unavailable")
+        for c in cfgs:
+            c["rate"] = 0.0
+        want_ticks = False
 
-    def amount(cur):
-        bal = store.get_balance(ET[cur])
-        cap = {"ATP": store.max_atp, "GTP": store.max_gtp, "NADH": store.max_nadh}[cur]
-        return rng.choice([0, 1, 2, 3, 5, max(0, bal - 1), bal, bal + 1, cap + 1, bal + store.nadh, bal + store.nadh + 1,
-                           bal + max_debt, bal + max_debt + 1, 10 ** 9])
+    stores = [None, None]
+    cb_log = []
+    problems = []            # (mechanism, what) found inside callbacks; reported after the call returns
+
+    def make_cb(who):
+        def cb(state):
+            cb_log.append((who, getattr(state, "value", state)))
+            s = stores[who]
+            if s is not None:
+                ctx.count("callback_observations")
+                vals = [ATP_Store.get_balance(s, ET["ATP"]), ATP_Store.get_balance(s, ET["GTP"]), ATP_Store.get_balance(s, ET["NADH"]),
+                        ATP_Store.get_debt(s)]
+                if min(vals) < 0:
+                    problems.append(("negative-balance", "state-change callback saw atp/gtp/nadh/debt = %r" % (vals,)))
+            if raise_p and rng.random() < raise_p:
+                ctx.count("callback_raised")
+                raise UserCallbackError("user hook fails")
+        return cb
+
+    cbs = [make_cb(0) if spec["cb"][0] else None, make_cb(1) if spec["cb"][1] else None]
+    if spec.get("shared_cb") and cbs[0] and cbs[1]:
+        cbs[1] = cbs[0]      # one callback object registered with both stores
+
+    threads = [None, None]
+    started = []
+    for who in (0, 1):
+        before = set(threading.enumerate())
+        with contextlib.redirect_stdout(SINK):
+            stores[who] = build(cls, cfgs[who], cbs[who], spec["silent"][who], spec["styles"][who])
+        if cfgs[who]["rate"] > 0:
+            new = [t for t in threading.enumerate() if t not in before]
+            started.extend(new)
+            if len(new) == 1 and shim.wait_parked(new[0], 30.0):
+                threads[who] = new[0]
+            else:
+                ctx.count("tick_unavailable")
+    wrapped = wrap_all_locks(stores[0], DetectingLock, "ATP_Store") + wrap_all_locks(stores[1], DetectingLock, "peer")
+    if spec.get("dflt"):
+        ctx.count("default_constructor_sessions")
+    if spec.get("big"):
+        ctx.count("big_value_sessions")
+    if spec.get("odd"):
+        ctx.count("odd_config_sessions")
+
+    twins = None
+    if spec["twin"]:
+        twins = [build(ATP_Store, cfgs[w], None, True, "kw") for w in (0, 1)]
+        ctx.count("twin_sessions")
+
+    S = [{"limit_max": cfgs[w]["max_debt"], "spent_ok": 0, "regen_free": True,
+          "initial_total": cfgs[w]["budget"] + cfgs[w]["gtp"] + cfgs[w]["nadh"], "last": None} for w in (0, 1)]
+
+    def amount(who, cur):
+        s = stores[who]
+        bal = s.get_balance(ET[cur])
+        cap = caps(s)[cur.lower()]
+        md = S[who]["limit_max"]
+        md = int(md) if md < 10 ** 30 else 0
+        pool = [0, 1, 2, 3, 5, max(0, bal - 1), bal, bal + 1, cap + 1, bal + s.nadh, bal + s.nadh + 1, bal + md, bal + md + 1, 10 ** 9]
+        if spec.get("big"):
+            pool += [2 ** 53 + 1, 2 ** 64, bal + 2 ** 53 + 1]
+        return rng.choice(pool)
 
     def gen_op():
+        who = 0 if rng.random() < 0.75 else 1
         r = rng.random()
-        if r < 0.5:
+        if any(threads) and rng.random() < 0.25:
+            return {"k": "tick", "who": rng.choice([w for w in (0, 1) if threads[w] is not None])}
+        if clock is not None and rng.random() < 0.15:
+            return {"k": "clock", "who": who, "seconds": rng.choice(JUMPS)}
+        style = rng.choice(["kw", "kw", "positional", "defaults"])
+        if r < 0.44:
             cur = rng.choice(["ATP", "ATP", "ATP", "GTP", "NADH"])
-            return ("consume", amount(cur), cur, rng.random() < 0.5, rng.choice([0, 0, 5, 10, 10]))
-        if r < 0.62:
+            op = {"k": "consume", "who": who, "amt": amount(who, cur), "cur": cur, "debt": rng.random() < 0.5,
+                  "prio": rng.choice(PRIORITIES), "style": style}
+            if rng.random() < 0.25:
+                op["name"] = rng.choice(OPNAMES)
+            return op
+        if r < 0.55:
             cur = rng.choice(["ATP", "ATP", "GTP", "NADH"])
-            return ("regenerate", amount(cur), cur)
-        if r < 0.74:
+            return {"k": "regenerate", "who": who, "amt": amount(who, cur), "cur": cur, "style": style}
+        if r < 0.66:
             cur = rng.choice(["ATP", "ATP", "GTP", "NADH"])
-            return ("transfer", amount(cur), cur, rng.choice(["peer", "peer", "self", "from_peer"]))
-        if r < 0.82:
-            return ("convert", amount("NADH"))
+            return {"k": "transfer", "who": who, "amt": amount(who, cur), "cur": cur, "to": rng.choice(["other", "other", "other", "self"]), "style": style}
+        if r < 0.72:
+            return {"k": "convert", "who": who, "amt": amount(who, "NADH")}
+        if r < 0.76:
+            return {"k": "dormant", "who": who}
+        if r < 0.80:
+            return {"k": "wake", "who": who}
+        if r < 0.85:
+            return {"k": "interest", "who": who}
         if r < 0.87:
-            return ("dormant",)
-        if r < 0.92:
-            return ("wake",)
+            return {"k": "reset", "who": who}
+        if r < 0.93:
+            kind = rng.choice(["report", "stats", "transactions", "transactions", "repr", "balance-default", "getters"])
+            op = {"k": "read", "who": who, "kind": kind}
+            if kind == "transactions":
+                op["limit"] = rng.choice([None, 0, 1, 5, 100, 10 ** 6])
+            return op
         if r < 0.97:
-            return ("interest",)
-        return ("reset",)
+            attr = rng.choice(["silent", "silent", "max_debt", "debt_interest", "max_atp", "max_gtp", "max_nadh"])
+            if attr == "silent":
+                v = rng.random() < 0.5
+            elif attr == "max_debt":
+                v = rng.choice(DEBTS + [2, 20])
+            elif attr == "debt_interest":
+                v = rng.choice(INTEREST + ODD_INTEREST)
+            else:
+                v = rng.choice(GRID)
+            return {"k": "set", "who": who, "attr": attr, "value": v}
+        return {"k": "spawn", "who": who, "budget": rng.choice(GRID), "max_debt": rng.choice([0, 5])}
 
-    history = []
+    def gen_long_op(i):
+        who = 0 if rng.random() < 0.8 else 1
+        s = stores[who]
+        r = rng.random()
+        if clock is not None and rng.random() < 0.01:
+            return {"k": "clock", "who": who, "seconds": rng.choice(JUMPS)}
+        if r < 0.55:
+            cur = rng.choice(["ATP", "ATP", "ATP", "GTP", "NADH"])
+            return {"k": "consume", "who": who, "amt": rng.choice([0, 1, 1, 2, 3, 7, 30]), "cur": cur, "debt": rng.random() < 0.4,
+                    "prio": rng.choice([0, 5, 10, 10]), "style": "kw"}
+        if r < 0.80:
+            cur = rng.choice(["ATP", "ATP", "ATP", "GTP", "NADH"])
+            return {"k": "regenerate", "who": who, "amt": rng.choice([1, 2, 5, 9, 40]), "cur": cur}
+        if r < 0.87:
+            return {"k": "transfer", "who": who, "amt": rng.choice([0, 1, 2, 6]), "cur": rng.choice(["ATP", "ATP", "GTP", "NADH"]),
+                    "to": rng.choice(["other", "other", "self"])}
+        if r < 0.90:
+            return {"k": "convert", "who": who, "amt": rng.choice([1, 3, 50])}
+        if r < 0.93 and s.get_debt() < 10 ** 6:
+            return {"k": "interest", "who": who}
+        if r < 0.95:
+            return {"k": rng.choice(["dormant", "wake", "wake"]), "who": who}
+        if r < 0.999:
+            return {"k": "read", "who": who, "kind": rng.choice(["report", "stats", "transactions", "getters"]), "limit": rng.choice([None, 5, 5000])}
+        return {"k": "reset", "who": who}
+
+    history = collections.deque(maxlen=12)
+    nhist = [0]
     branches = []
-    spent_ok = 0
-    regen_free = True
-    initial_total = budget + gtp + nadh
-    nsteps = len(ops) if ops is not None else rng.randint(3, 25)
+    flags = {k: spec.get(k) for k in ("silent", "twin", "raise_p", "styles", "cb", "shared_cb", "clock") if spec.get(k) is not None}
 
     def viol(mech, what):
-        ctx.violation(mech, what, {"config": cfg, "history": history[-12:], "steps_before": max(0, len(history) - 12)})
+        ctx.violation(mech, what, {"configs": cfgs, "flags": flags, "history": list(history), "steps_before": max(0, nhist[0] - len(history))})
+
+    def finish():
+        for t in started:
+            shim.finish(t)
+        for who in (0, 1):
+            if cfgs[who]["rate"] > 0:
+                try:
+                    stores[who].stop_regeneration()
+                except BaseException as e:  # noqa
+                    viol("raises:stop_regeneration:%s" % type(e).__name__, "stop_regeneration raised %r" % (e,))
+        for t in started:
+            shim.forget(t)
+        ctx.counters["invariant_evaluations"] = _INV["n"]
+        ctx.counters["lock_acquisitions"] = ctx.counters.get("lock_acquisitions", 0) + sum(w.acquisitions for w in wrapped)
+
+    ops = spec["ops"]
+    nsteps = len(ops) if ops is not None else spec.get("nsteps") or rng.randint(3, 25)
+    if light:
+        ctx.count("long_sessions")
+        S[0]["last"], S[1]["last"] = snapshot(stores[0]), snapshot(stores[1])
 
     for i in range(nsteps):
-        op = ops[i] if ops is not None else gen_op()
-        b, pb = snapshot(store), snapshot(peer)
+        op = ops[i] if ops is not None else (gen_long_op(i) if light else gen_op())
+        who = op["who"]
+        k = op["k"]
+        s, o = stores[who], stores[1 - who]
+        st = S[who]
+        if light:
+            b, ob = st["last"], S[1 - who]["last"]
+            ctx.count("long_session_steps")
+        else:
+            b, ob = snapshot(s), snapshot(o)
+            # nothing may move between two calls (reads, other instances, the previous call's aftermath)
+            for w, fresh in ((who, b), (1 - who, ob)):
+                if S[w]["last"] is not None:
+                    ctx.count("continuity_checks")
+                    if S[w]["last"] != fresh:
+                        history.append({"op": "(between calls)", "store": w, "seen_after_previous_call": S[w]["last"], "now": fresh})
+                        viol("state-moved-between-calls", "store %d changed with no operation on it: %s -> %s" % (w, S[w]["last"], fresh))
+                        return finish()
         ctx.count("steps")
+        if who == 1:
+            ctx.count("steps_on_second_store")
+        verbose_now = not getattr(s, "silent", True)
+        if verbose_now:
+            ctx.count("verbose_steps")
         ret = None
         exc = None
+        nthread_err = len(_SHIM["thread_errors"])
         try:
-            if op[0] == "consume":
-                ret = store.consume(op[1], "op%d" % i, ET[op[2]], allow_debt=op[3], priority=op[4])
-            elif op[0] == "regenerate":
-                ret = store.regenerate(op[1], ET[op[2]])
-            elif op[0] == "transfer":
-                if op[3] == "peer":
-                    ret = store.transfer_to(peer, op[1], ET[op[2]])
-                elif op[3] == "self":
-                    ret = store.transfer_to(store, op[1], ET[op[2]])
+            with contextlib.redirect_stdout(SINK):
+                if k == "read":
+                    ret = do_read(ET, s, op)
+                elif k == "clock":
+                    clock.advance(op["seconds"])
+                    ctx.count("clock_jumps")
+                elif k == "spawn":
+                    third = ATP_Store(op["budget"], max_debt=op["max_debt"]) if rng.random() < 0.5 else cls(op["budget"], max_debt=op["max_debt"], silent=True)
+                    r1 = third.consume(op["budget"] + 1, "spawned", allow_debt=True, priority=10)
+                    third.regenerate(3)
+                    third.enter_dormancy()
+                    ret = [r1, ATP_Store.get_balance(third), ATP_Store.get_debt(third)]
+                    ctx.count("spawned_instances")
+                elif k == "tick":
+                    if threads[who] is None:
+                        ret = "no-thread"
+                    else:
+                        ok = shim.tick(threads[who])
+                        ctx.count("ticks")
+                        ret = "ticked" if ok else "thread-lost"
                 else:
-                    ret = peer.transfer_to(store, op[1], ET[op[2]])
-            elif op[0] == "convert":
-                ret = store.convert_nadh_to_atp(op[1])
-            elif op[0] == "dormant":
-                store.enter_dormancy()
-            elif op[0] == "wake":
-                store.exit_dormancy()
-            elif op[0] == "interest":
-                store.apply_debt_interest()
-            elif op[0] == "reset":
-                store.reset()
+                    ret = apply_op(ET, stores, op, i)
         except WouldHang as e:
-            exc = e
             history.append({"op": op, "before": b, "raised": "WouldHang"})
-            viol("self-deadlock", "%s would hang: lock re-acquired at %s (held since %s)" % (op[0], e.second_stack[-2:], e.first_stack[-2:]))
-            return
+            nhist[0] += 1
+            viol("self-deadlock", "%s would hang: lock re-acquired at %s (held since %s)" % (k, e.second_stack[-2:], e.first_stack[-2:]))
+            return finish()
         except InvariantBroken as e:
             history.append({"op": op, "before": b, "raised": str(e)})
-            viol("negative-balance", "class invariant broken during %s: %s" % (op[0], e))
-            return
+            nhist[0] += 1
+            viol("negative-balance", "class invariant broken during %s: %s" % (k, e))
+            return finish()
         except BaseException as e:
             exc = e
-        a, pa = snapshot(store), snapshot(peer)
-        rec = {"op": list(op), "ret": ret, "before": b, "after": a}
-        if op[0] == "transfer":
-            rec["peer_before"], rec["peer_after"] = pb, pa
+        a, oa = snapshot(s), snapshot(o)
+        st["last"], S[1 - who]["last"] = a, oa
+        rec = {"op": op, "ret": ret, "before": b, "after": a}
+        if k in ("transfer", "spawn") or ob != oa:
+            rec["other_before"], rec["other_after"] = ob, oa
         history.append(rec)
+        nhist[0] += 1
+        if problems:
+            for mech, what in problems:
+                viol(mech, what)
+            return finish()
+        if k == "tick" and (ret == "thread-lost" or len(_SHIM["thread_errors"]) > nthread_err):
+            errs = _SHIM["thread_errors"][nthread_err:]
+            if errs:
+                viol("raises:background-regeneration:%s" % errs[0][1], "the regeneration thread died with %s" % errs[0][2])
+            else:
+                ctx.count("tick_unavailable")
+            threads[who] = None
+            return finish()
+        user_exc = False
         if exc is not None:
             rec["raised"] = repr(exc)
-            if isinstance(exc, ZeroDivisionError) and store.max_atp + store.max_gtp == 0:
-                viol("zero-capacity-division", "%s raised ZeroDivisionError on a store with zero ATP+GTP capacity" % op[0])
+            if isinstance(exc, UserCallbackError) and raise_p:
+                user_exc = True          # the user's own exception propagates (as on the unchanged tree); judge the state left behind
+            elif k == "spawn":
+                viol("raises:spawn:%s" % type(exc).__name__, "constructing/using a fresh third instance (budget %r, max_debt %r) raised %r" % (op["budget"], op["max_debt"], exc))
+                return finish()
+            elif isinstance(exc, ZeroDivisionError) and s.max_atp + s.max_gtp == 0 and not verbose_now:
+                viol("zero-capacity-division", "%s raised ZeroDivisionError on a store with zero ATP+GTP capacity" % k)
+                return finish()
             else:
-                viol("raises:%s:%s" % (op[0], type(exc).__name__), "%s raised %r" % (op[0], exc))
-            return
+                viol("raises:%s:%s" % (k, type(exc).__name__), "%s%s raised %r" % (k, " (silent=False)" if verbose_now else "", exc))
+                return finish()
+        held = [w.name for w in wrapped if w.locked()]
+        if held:
+            viol("lock-left-held", "%s returned%s with %s still held" % (k, " (callback raised)" if user_exc else "", held))
+            return finish()
+        # ---- quiet twin: same operation, same results
+        if twins is not None and k not in ("read", "spawn", "tick", "clock") and not (k == "set" and op["attr"] == "silent"):
+            ctx.count("twin_steps")
+            try:
+                tret = apply_op(ET, twins, op, i)
+            except BaseException as e:  # noqa
+                rec["twin_raised"] = repr(e)
+                viol("raises:%s:%s" % (k, type(e).__name__), "%s raised %r on the quiet twin" % (k, e))
+                return finish()
+            ta = [snapshot(twins[who]), snapshot(twins[1 - who])]
+            if tret != ret or ta != [a, oa]:
+                rec["twin"] = {"ret": tret, "after": ta}
+                viol("differential-mismatch", "%s on the observed pair (silent=%s, reads/callback/monitors) returned %r -> %s, on the quiet twin %r -> %s" % (
+                    k, [not getattr(x, "silent", True) for x in stores], ret, [a, oa], tret, ta))
+                return finish()
         # ---- universal obligations
-        for k in ("atp", "gtp", "nadh", "debt"):
-            if a[k] < 0:
-                viol("negative-balance", "%s is %r after %s" % (k, a[k], op[0]))
-                return
+        for w, x in ((who, a), (1 - who, oa)):
+            for f in CORE:
+                if x[f] < 0:
+                    viol("negative-balance", "%s of store %d is %r after %s" % (f, w, x[f], k))
+                    return finish()
         d = net(a) - net(b)
-        if a["debt"] > b["debt"] and op[0] != "interest":
-            if op[0] != "consume" or not op[3]:
-                viol("debt-created-by-" + op[0], "debt rose %d -> %d in %s" % (b["debt"], a["debt"], op[0]))
-            if a["debt"] > max_debt:
-                viol("debt-limit-exceeded", "debt %d > max_debt %d after %s" % (a["debt"], max_debt, op[0]))
-        if op[0] == "consume":
-            cost, cur = op[1], op[2]
-            if ret is True:
-                spent_ok += cost
+        od = net(oa) - net(ob)
+        to_other = k == "transfer" and op["to"] == "other"
+        if not to_other and {f: oa[f] for f in CORE} != {f: ob[f] for f in CORE}:
+            viol("other-store-moved", "%s on store %d changed the other store %s -> %s" % (k, who, ob, oa))
+        if k == "set":
+            ctx.count("reconfigurations")
+            if op["attr"] == "max_debt":
+                st["limit_max"] = max(st["limit_max"], op["value"])
+            if a != b:
+                viol("reconfiguration-moves-balances", "assigning %s changed the ledger %s -> %s" % (op["attr"], b, a))
+            continue
+        if k == "clock":
+            # no regeneration is configured in these sessions: the passage of time alone must not move the ledger
+            if a != b or oa != ob:
+                viol("time-moves-ledger", "a clock jump of %r s changed the ledger: %s -> %s / other %s -> %s" % (op["seconds"], b, a, ob, oa))
+            continue
+        if k in ("read", "spawn"):
+            if k == "read":
+                ctx.count("reads")
+                for f in CORE:
+                    if f in ret and ret[f] != a[f]:
+                        viol("report-disagrees", "%s reported %s=%r while the getters say %r" % (op["kind"], f, ret[f], a[f]))
+            if a != b or oa != ob:
+                viol("read-moves-state", "%s changed the ledger: %s -> %s / other %s -> %s" % (op.get("kind", k), b, a, ob, oa))
+            continue
+        if a["debt"] > b["debt"] and k != "interest":
+            if k != "consume" or not op["debt"]:
+                viol("debt-created-by-" + k, "debt rose %d -> %d in %s" % (b["debt"], a["debt"], k))
+            if a["debt"] > st["limit_max"]:
+                viol("debt-limit-exceeded", "debt %d > max_debt %s after %s" % (a["debt"], st["limit_max"], k))
+        if k == "consume":
+            cost, cur = op["amt"], op["cur"]
+            if user_exc:
+                # neither success nor failure was reported: the spend either happened completely or not at all
+                if d == -cost and a["consumed"] - b["consumed"] == cost:
+                    st["spent_ok"] += cost
+                    br = "raised-after-charge"
+                elif d == 0 and a["consumed"] == b["consumed"]:
+                    br = "raised-free"
+                else:
+                    br = "raised-?"
+                    viol("callback-raise-breaks-ledger", "consume(%d, %s) whose state-change callback raised changed net worth by %d and total_consumed by %d" % (
+                        cost, cur, d, a["consumed"] - b["consumed"]))
+            elif ret is True:
+                st["spent_ok"] += cost
                 if d != -cost:
                     if cur == "ATP" and b["nadh"] > 0 and a["debt"] > b["debt"]:
                         mech = "topup-then-debt-overcharge"
@@ -240,7 +812,7 @@ def run_case(ctx, n):
                         mech = "nadh-debt-undercharge"
                     else:
                         mech = "charge-mismatch"
-                    viol(mech, "successful consume(%d, %s, allow_debt=%s) changed net worth by %d" % (cost, cur, op[3], d))
+                    viol(mech, "successful consume(%d, %s, allow_debt=%s) changed net worth by %d" % (cost, cur, op["debt"], d))
                 if a["consumed"] - b["consumed"] != cost:
                     viol("total-consumed-mismatch", "total_consumed moved by %d for a successful spend of %d" % (a["consumed"] - b["consumed"], cost))
                 if a["debt"] > b["debt"]:
@@ -249,94 +821,110 @@ def run_case(ctx, n):
                     br = "topup"
                 else:
                     br = "direct"
+                if light:
+                    ctx.count("long_session_spends_ok")
             elif ret is False:
                 if d != 0:
                     viol("failure-not-free", "failed consume(%d, %s) changed net worth by %d" % (cost, cur, d))
-                moved = [k for k in ("atp", "gtp", "nadh", "debt") if a[k] != b[k]]
+                moved = [f for f in CORE if a[f] != b[f]]
                 legit_topup = (cur == "ATP" and set(moved) <= {"atp", "nadh"} and a["nadh"] <= b["nadh"])
                 if moved and not legit_topup:
                     viol("failure-moves-balances", "failed consume(%d, %s) moved %s" % (cost, cur, moved))
                 if a["consumed"] != b["consumed"]:
                     viol("total-consumed-mismatch", "total_consumed moved on a failed spend")
-                gated = (b["state"] == "starving" and op[4] < 5) or (b["state"] == "dormant" and op[4] < 10)
+                gated = (b["state"] == "starving" and op["prio"] < 5) or (b["state"] == "dormant" and op["prio"] < 10)
                 br = "gated" if gated else "refused"
             else:
                 viol("consume-return-type", "consume returned %r" % (ret,))
                 br = "?"
             ctx.count("branch:" + br)
             branches.append(br)
-        elif op[0] == "regenerate":
-            regen_free = False
-            amt, cur = op[1], op[2].lower()
-            cap = {"atp": store.max_atp, "gtp": store.max_gtp, "nadh": store.max_nadh}[cur]
+        elif k in ("regenerate", "tick"):
+            st["regen_free"] = False
+            if k == "tick":
+                amt, cur = int(cfgs[who]["rate"]), "atp"
+            else:
+                amt, cur = op["amt"], op["cur"].lower()
+            cap = caps(s)[cur]
             if a[cur] > max(cap, b[cur]):
-                viol("regenerate-above-capacity", "regenerate(%d, %s) lifted the balance %d -> %d above capacity %d" % (amt, cur, b[cur], a[cur], cap))
+                viol("regenerate-above-capacity", "%s(%d, %s) lifted the balance %d -> %d above capacity %d" % (k, amt, cur, b[cur], a[cur], cap))
             # (a balance that a failed spend's NADH top-up left above capacity may be clamped back: energy
             #  destroyed, never created — the statement only forbids creation)
             if d > amt:
-                viol("regenerate-creates-energy", "regenerate(%d) changed net worth by %d" % (amt, d))
-            others = [k for k in ("atp", "gtp", "nadh") if k != cur and a[k] != b[k]]
+                viol("regenerate-creates-energy", "%s(%d) changed net worth by %d" % (k, amt, d))
+            others = [f for f in ("atp", "gtp", "nadh") if f != cur and a[f] != b[f]]
             if others or a["debt"] > b["debt"]:
-                viol("regenerate-moves-other", "regenerate(%s) moved %s / debt %d -> %d" % (cur, others, b["debt"], a["debt"]))
-        elif op[0] == "transfer":
-            amt = op[1]
-            regen_free = False
-            if op[3] == "self":
-                if ret is True and d > 0:
+                viol("regenerate-moves-other", "%s(%s) moved %s / debt %d -> %d" % (k, cur, others, b["debt"], a["debt"]))
+            if verbose_now and cur == "atp" and b["debt"] > 0 and a["debt"] == 0:
+                ctx.count("verbose_debt_repaid_in_full")
+        elif k == "transfer":
+            amt = op["amt"]
+            st["regen_free"] = False
+            S[1 - who]["regen_free"] = False
+            if op["to"] == "self":
+                if (ret is True or user_exc) and d > 0:
                     viol("self-transfer-creates-energy", "self transfer of %d changed net worth by %d" % (amt, d))
                 if ret is False and (a != b):
                     viol("failed-transfer-moves", "failed self transfer changed the store")
+                if verbose_now and b["debt"] > 0 and a["debt"] == 0:
+                    ctx.count("verbose_debt_repaid_in_full")
             else:
-                src_b, src_a, dst_b, dst_a = (b, a, pb, pa) if op[3] == "peer" else (pb, pa, b, a)
-                ds, dd = net(src_a) - net(src_b), net(dst_a) - net(dst_b)
-                if ret is True:
+                ds, dd = d, od
+                if user_exc:
+                    if ds not in (0, -amt) or dd > -ds:
+                        viol("callback-raise-breaks-ledger", "transfer of %d whose state-change callback raised moved the source by %d and the destination by %d" % (amt, ds, dd))
+                elif ret is True:
                     ctx.count("transfers_ok")
                     if ds != -amt:
                         viol("transfer-debit-mismatch", "transfer of %d debited the source by %d" % (amt, -ds))
                     if dd > amt or ds + dd > 0:
                         viol("transfer-creates-energy", "transfer of %d credited the destination by %d" % (amt, dd))
                 elif ret is False:
-                    if ds != 0 or dd != 0 or {k: src_a[k] for k in ("atp", "gtp", "nadh", "debt")} != {k: src_b[k] for k in ("atp", "gtp", "nadh", "debt")}:
+                    if ds != 0 or dd != 0 or {f: a[f] for f in CORE} != {f: b[f] for f in CORE}:
                         viol("failed-transfer-moves", "failed transfer changed net worth (source %d, destination %d)" % (ds, dd))
                 else:
                     viol("transfer-return-type", "transfer_to returned %r" % (ret,))
-                cur = op[2].lower()
-                capd = {"atp": (peer if op[3] == "peer" else store).max_atp, "gtp": (peer if op[3] == "peer" else store).max_gtp,
-                        "nadh": (peer if op[3] == "peer" else store).max_nadh}[cur]
-                if dst_a[cur] > max(capd, dst_b[cur]):
-                    viol("transfer-above-capacity", "transfer lifted the destination %s balance to %d above capacity %d" % (cur, dst_a[cur], capd))
-        elif op[0] == "convert":
+                cur = op["cur"].lower()
+                capd = caps(o)[cur]
+                if oa[cur] > max(capd, ob[cur]):
+                    viol("transfer-above-capacity", "transfer lifted the destination %s balance to %d above capacity %d" % (cur, oa[cur], capd))
+                if oa["debt"] > ob["debt"]:
+                    viol("debt-created-by-transfer", "destination debt rose %d -> %d" % (ob["debt"], oa["debt"]))
+                if not getattr(o, "silent", True) and cur == "atp" and ob["debt"] > 0 and oa["debt"] == 0:
+                    ctx.count("verbose_debt_repaid_in_full")
+        elif k == "convert":
             c = ret
-            if not isinstance(c, int) or c > op[1]:
-                viol("convert-amount", "convert_nadh_to_atp(%d) returned %r" % (op[1], c))
+            if not isinstance(c, int) or c > op["amt"]:
+                viol("convert-amount", "convert_nadh_to_atp(%d) returned %r" % (op["amt"], c))
             elif c <= 0:
-                if any(a[k] != b[k] for k in ("atp", "gtp", "nadh", "debt")):
+                if any(a[f] != b[f] for f in CORE):
                     viol("convert-not-conserving", "convert returned %d but balances moved %s -> %s" % (c, b, a))
             elif a["nadh"] != b["nadh"] - c or a["atp"] != b["atp"] + c or a["gtp"] != b["gtp"] or a["debt"] != b["debt"]:
                 viol("convert-not-conserving", "convert returned %d but balances moved %s -> %s" % (c, b, a))
-            elif a["atp"] > max(store.max_atp, b["atp"]):
+            elif a["atp"] > max(s.max_atp, b["atp"]):
                 viol("convert-above-capacity", "convert lifted ATP above capacity")
-        elif op[0] in ("dormant", "wake"):
-            if any(a[k] != b[k] for k in ("atp", "gtp", "nadh", "debt")):
-                viol("dormancy-moves-balances", "%s changed balances" % op[0])
-        elif op[0] == "interest":
-            regen_free = regen_free and a["debt"] == b["debt"]
-            if any(a[k] != b[k] for k in ("atp", "gtp", "nadh")) or a["debt"] < b["debt"]:
+        elif k in ("dormant", "wake"):
+            if any(a[f] != b[f] for f in CORE):
+                viol("dormancy-moves-balances", "%s changed balances" % k)
+        elif k == "interest":
+            st["regen_free"] = st["regen_free"] and a["debt"] == b["debt"]
+            if any(a[f] != b[f] for f in ("atp", "gtp", "nadh")) or a["debt"] < b["debt"]:
                 viol("interest-moves-balances", "apply_debt_interest changed balances or lowered debt")
-        elif op[0] == "reset":
-            regen_free = False
-            if (a["atp"], a["gtp"], a["nadh"], a["debt"]) != (store.max_atp, store.max_gtp, store.max_nadh, 0):
+        elif k == "reset":
+            st["regen_free"] = False
+            if (a["atp"], a["gtp"], a["nadh"], a["debt"]) != (s.max_atp, s.max_gtp, s.max_nadh, 0):
                 viol("reset-state", "reset left %s" % a)
-    if regen_free and spent_ok > initial_total + max_debt:
-        viol("unbounded-total-spend", "successful spends total %d > initial %d + max_debt %d without regeneration" % (
-            spent_ok, initial_total, max_debt))
-    ctx.counters["invariant_evaluations"] = _INV["n"]
-    ctx.counters["lock_acquisitions"] = ctx.counters.get("lock_acquisitions", 0) + sum(w.acquisitions for w in wrapped)
+    for w in (0, 1):
+        if S[w]["regen_free"] and S[w]["spent_ok"] - S[w]["initial_total"] > S[w]["limit_max"]:      # int - int, then an exact int/float comparison
+            viol("unbounded-total-spend", "successful spends on store %d total %d > initial %d + max_debt %s without regeneration" % (
+                w, S[w]["spent_ok"], S[w]["initial_total"], S[w]["limit_max"]))
+    finish()
     if len(set(branches)) >= 2:
-        cls = (min(budget, 3), min(gtp, 1), min(nadh, 1), min(max_debt, 1))
-        ctx.nontrivial((cls, tuple(branches[:10])))
+        c0 = cfgs[0]
+        clsfp = (min(c0["budget"], 3), min(c0["gtp"], 1), min(c0["nadh"], 1), min(c0["max_debt"], 1))
+        ctx.nontrivial((clsfp, tuple(branches[:10])))
     if n % 4000 == 0:
-        ctx.sample({"config": cfg, "history": history[:6]})
+        ctx.sample({"configs": cfgs, "flags": flags, "history": list(history)[:6]})
 
 
 if __name__ == "__main__":
